@@ -7,6 +7,7 @@ package c02
 import (
 	"math"
 	"math/big"
+	"strings"
 	"unicode/utf16"
 	"unicode/utf8"
 )
@@ -33,6 +34,8 @@ type expect struct {
 	// trunc is the toward-zero neighbour for inexact float conversions (diagnosis only)
 	trunc    float64
 	hasTrunc bool
+	// note marks text cases that involve a byte order mark (counters only, never judged)
+	note string
 }
 
 type params struct {
@@ -424,21 +427,34 @@ func bytesAt(bits []byte, pos, n int) ([]byte, bool) {
 }
 
 // decodeText decodes raw in the named encoding; ok=false when raw is not a well
-// formed sequence in that encoding (outside the enumerated domain).
-func decodeText(enc string, raw []byte) (string, bool) {
+// formed sequence in that encoding (outside the enumerated domain). A byte order
+// mark (U+FEFF in the encoding form) is a signature, not text, only as the very
+// first code unit(s) of a field read with a byte order mark aware encoding: exactly
+// one is removed there; everywhere else U+FEFF is an ordinary character of the value.
+// note says which of the two happened (for the counters).
+func decodeText(enc string, raw []byte) (s string, ok bool, note string) {
+	defer func() {
+		if ok && strings.ContainsRune(s, 0xfeff) {
+			if note != "" {
+				note += "|"
+			}
+			note += "u+feff-kept-in-value"
+		}
+	}()
 	switch enc {
 	case "utf8bom":
 		if !utf8.Valid(raw) {
-			return "", false
+			return "", false, ""
 		}
-		s := string(raw)
+		s = string(raw)
 		if len(s) >= 3 && s[:3] == "\xef\xbb\xbf" {
 			s = s[3:] // the decoder strips one leading byte order mark
+			note = "utf8-leading-bom-removed"
 		}
-		return s, true
+		return s, true, note
 	case "utf16le", "utf16be", "utf16bom":
 		if len(raw)%2 != 0 {
-			return "", false
+			return "", false, ""
 		}
 		be := enc == "utf16be"
 		if enc == "utf16bom" && len(raw) >= 2 {
@@ -446,8 +462,10 @@ func decodeText(enc string, raw []byte) (string, bool) {
 			if raw[0] == 0xfe && raw[1] == 0xff {
 				be = true
 				raw = raw[2:]
+				note = "utf16-leading-bom-removed"
 			} else if raw[0] == 0xff && raw[1] == 0xfe {
 				raw = raw[2:]
+				note = "utf16-leading-bom-removed"
 			}
 		}
 		us := make([]uint16, len(raw)/2)
@@ -463,16 +481,16 @@ func decodeText(enc string, raw []byte) (string, bool) {
 			switch {
 			case us[i] >= 0xd800 && us[i] < 0xdc00:
 				if i+1 >= len(us) || us[i+1] < 0xdc00 || us[i+1] > 0xdfff {
-					return "", false
+					return "", false, ""
 				}
 				i++
 			case us[i] >= 0xdc00 && us[i] <= 0xdfff:
-				return "", false
+				return "", false, ""
 			}
 		}
-		return string(utf16.Decode(us)), true
+		return string(utf16.Decode(us)), true, note
 	}
-	return "", false
+	return "", false, ""
 }
 
 func refText(rd *reader, p params, bits []byte, pos int) expect {
@@ -481,12 +499,12 @@ func refText(rd *reader, p params, bits []byte, pos int) expect {
 		enc = p.enc
 	}
 	done := func(raw []byte, consumedBytes int, class string) expect {
-		s, ok := decodeText(enc, raw)
+		s, ok, note := decodeText(enc, raw)
 		if !ok {
 			return expect{mode: mSkip}
 		}
 		c := int64(consumedBytes) * 8
-		return expect{mode: mValue, val: s, consumed: c, need: c, class: class}
+		return expect{mode: mValue, val: s, consumed: c, need: c, class: class, note: note}
 	}
 	switch rd.kind {
 	case kTextFixed:
